@@ -4,6 +4,7 @@ import (
 	"fmt"
 
 	"lwverif/internal/absint"
+	"lwverif/internal/core"
 	"lwverif/internal/load"
 )
 
@@ -118,5 +119,18 @@ func init() {
 				}
 			}
 		}
+	}
+}
+
+func init() {
+	dumpers["c16keys"] = func(p *load.Program, args []string) {
+		c := &Ctx{Prog: p, Run: core.NewRun("C16", "quick")}
+		c16KeyBlocksE1(c, "R1.keyblocks")
+		for _, o := range c.Run.Obls {
+			if o.Status != core.Discharged {
+				fmt.Println(o.Status, o.Key, o.Want, o.Got)
+			}
+		}
+		fmt.Println("obligations:", len(c.Run.Obls))
 	}
 }
